@@ -19,6 +19,7 @@ import (
 
 	"pdverif/internal/coqfmt"
 	"pdverif/internal/etcdx"
+	"pdverif/internal/pdcluster"
 	"pdverif/internal/res"
 	"pdverif/internal/rng"
 	"pdverif/internal/srv15"
@@ -372,7 +373,29 @@ func serverPhase(R *res.Result, rounds int) {
 				err = x.Bootstrap()
 			}
 		} else {
+			// the server is closed while requests keep arriving (a graceful step-down under load): whatever is still
+			// answered on the way down must stay unique and below the bound the next term starts from
+			var lw sync.WaitGroup
+			var down int32
+			old := x
+			for g := 0; g < 3; g++ {
+				lw.Add(1)
+				go func() {
+					defer lw.Done()
+					for atomic.LoadInt32(&down) == 0 {
+						ctx, cancel := context.WithTimeout(context.Background(), 2*time.Second)
+						resp, err := old.S.AllocID(ctx, &pdpb.AllocIDRequest{Header: old.Header()})
+						cancel()
+						if err == nil && resp.GetHeader().GetError() == nil {
+							note(resp.GetId(), fmt.Sprintf("AllocID while term %d was being closed", term-1), 0)
+						}
+					}
+				}()
+			}
+			time.Sleep(30 * time.Millisecond)
 			x.Stop()
+			atomic.StoreInt32(&down, 1)
+			lw.Wait()
 			x, err = srv15.StartWith(cfg)
 		}
 		if err != nil {
@@ -621,6 +644,119 @@ func rebaseRaceProbe(e *etcdx.Etcd, admin *clientv3.Client, R *res.Result) {
 	R.Count("rebase-race:probed")
 }
 
+// handoverPhase: two real members; the PD leadership is handed from one to the other and back (`member leader transfer`,
+// a graceful step-down: the old leader still holds its lease when it starts to step down) while four callers keep
+// sending AllocID to both members. Every id answered by anybody must be unique and at most the stored bound afterwards.
+// Runs in the background; returns the function that enters its findings into the result.
+func handoverPhase() func(R *res.Result) {
+	type viol struct {
+		sig, desc string
+		data      interface{}
+	}
+	var viols []viol
+	var notes []string
+	ids, moves := 0, 0
+	done := func(R *res.Result) {
+		for _, v := range viols {
+			R.Violate(v.sig, v.desc, v.data)
+		}
+		R.Notes = append(R.Notes, notes...)
+		R.CountN("handover:ids", ids)
+		R.CountN("handover:leader-moves", moves)
+	}
+	c, err := pdcluster.Start(2, nil)
+	if err != nil {
+		notes = append(notes, "hand-over phase skipped: "+err.Error())
+		return done
+	}
+	defer c.Close()
+	if c.WaitLeader(60*time.Second) == nil {
+		notes = append(notes, "hand-over phase skipped: no PD leader after 60 s")
+		return done
+	}
+	var mu sync.Mutex
+	seen := map[uint64]string{}
+	var stop int32
+	var wg sync.WaitGroup
+	for g := 0; g < 4; g++ {
+		wg.Add(1)
+		go func(g int) {
+			defer wg.Done()
+			for atomic.LoadInt32(&stop) == 0 {
+				for i, x := range c.Nodes {
+					ctx, cancel := context.WithTimeout(context.Background(), 2*time.Second)
+					resp, err := x.S.AllocID(ctx, &pdpb.AllocIDRequest{Header: &pdpb.RequestHeader{ClusterId: x.S.ClusterID()}})
+					cancel()
+					if err != nil || resp.GetHeader().GetError() != nil {
+						continue
+					}
+					id := resp.GetId()
+					mu.Lock()
+					if prev, ok := seen[id]; ok && len(viols) < 3 {
+						viols = append(viols, viol{"C04:duplicate-id:leader-hand-over-under-load",
+							fmt.Sprintf("id %d was answered by member %d after %d leader moves and had been answered before by %s", id, i+1, moves, prev),
+							map[string]interface{}{"id": id, "member": i + 1, "earlier": prev, "scenario": "two members; AllocID to both from 4 callers while the PD leadership is transferred back and forth"}})
+					}
+					seen[id] = fmt.Sprintf("member %d (after %d leader moves)", i+1, moves)
+					mu.Unlock()
+				}
+			}
+		}(g)
+	}
+	for k := 0; k < 3; k++ {
+		time.Sleep(300 * time.Millisecond)
+		l := c.Leader()
+		if l == nil {
+			if l = c.WaitLeader(30 * time.Second); l == nil {
+				break
+			}
+		}
+		var o *pdcluster.Node
+		for _, x := range c.Nodes {
+			if x != l {
+				o = x
+			}
+		}
+		ctx, cancel := context.WithTimeout(context.Background(), 10*time.Second)
+		err := l.S.GetMember().ResignEtcdLeader(ctx, l.Cfg.Name, o.Cfg.Name)
+		cancel()
+		if err != nil {
+			notes = append(notes, "hand-over phase: transfer refused: "+err.Error())
+			break
+		}
+		deadline := time.Now().Add(30 * time.Second)
+		for c.Leader() != o && time.Now().Before(deadline) {
+			time.Sleep(10 * time.Millisecond)
+		}
+		if c.Leader() != o {
+			notes = append(notes, "hand-over phase: the PD leadership did not move within 30 s")
+			break
+		}
+		mu.Lock()
+		moves++
+		mu.Unlock()
+	}
+	time.Sleep(300 * time.Millisecond)
+	atomic.StoreInt32(&stop, 1)
+	wg.Wait()
+	ids = len(seen)
+	if l := c.WaitLeader(10 * time.Second); l != nil {
+		ctx, cancel := context.WithTimeout(context.Background(), 5*time.Second)
+		r, err := l.S.GetClient().Get(ctx, path.Join("/pd", fmt.Sprint(l.S.ClusterID()), "alloc_id"))
+		cancel()
+		if err == nil && len(r.Kvs) > 0 {
+			b, _ := typeutil.BytesToUint64(r.Kvs[0].Value)
+			for id, who := range seen {
+				if id > b {
+					viols = append(viols, viol{"C04:id-above-stored-bound:leader-hand-over-under-load", fmt.Sprintf("id %d (answered by %s) is above the stored bound %d", id, who, b), map[string]interface{}{"id": id, "bound": b}})
+					break
+				}
+			}
+		}
+	}
+	return done
+}
+
 func main() {
 	seed := flag.Uint64("seed", 1, "")
 	n := flag.Int("n", 300, "number of generated cases")
@@ -643,6 +779,11 @@ func main() {
 	}
 	pool := &clientPool{e: e}
 	R := res.New("C04", *seed, *tier)
+	var handover chan func(*res.Result)
+	if *replay == "" {
+		handover = make(chan func(*res.Result), 1)
+		go func() { handover <- handoverPhase() }() // in the background: mostly waiting for elections
+	}
 	R.Rule = "random schedules of Alloc/Rebase (complete or parked between Get and Txn, released with Ok/ErrNotApplied/ErrApplied), " +
 		"new instances and leader switches on real id.Allocator objects sharing one embedded etcd; non-trivial = at least one window " +
 		"change and at least one rejected or faulted transaction; distinct by sha256 of the canonical (ops,obs) text"
@@ -714,6 +855,7 @@ func main() {
 	if *replay == "" {
 		rebaseRaceProbe(e, admin, R)
 		serverPhase(R, *serverRounds)
+		(<-handover)(R)
 	}
 	R.CaseFiles = cf.Files
 	// keep the raw cases so bin/check can extract a replay by index
